@@ -38,7 +38,7 @@ theorem C03_step (s : Sbx) (hs : C04.Sbx.wf s) (p q : Nat) (op : POp) (hp : Inv 
     simp only [stepPtr] at h
     rcases hp with rfl | hp
     · -- null base: `+`, `-` and `[]` all abort
-      simp [ptrArith] at h
+      simp [ptrArith, ptrArithCore] at h
     · exact Or.inr (C05.C05_inside_region s.region hwf f p n st q hp h)
   | load rep =>
     simp only [stepPtr] at h
